@@ -5,32 +5,32 @@
 EXTENDS HpTok, HpHttp, HpMisc
 
 FamsQuick == <<
-   [name |-> "http_req", toks |-> ReqTokens, pres |-> ReqPres, maxlen |-> 4],
-   [name |-> "http_resp", toks |-> RespTokens, pres |-> RespPres, maxlen |-> 4],
-   [name |-> "http_hdr", toks |-> HdrTokens, pres |-> HdrPres, maxlen |-> 4],
-   [name |-> "http_qry", toks |-> QryTokens, pres |-> NoPres, maxlen |-> 6],
-   [name |-> "http_chk", toks |-> ChkTokens, pres |-> NoPres, maxlen |-> 4],
-   [name |-> "http_url", toks |-> UrlTokens, pres |-> NoPres, maxlen |-> 5],
-   [name |-> "wsp", toks |-> WspTokens, pres |-> NoPres, maxlen |-> 5],
-   [name |-> "sdp", toks |-> SdpTokens, pres |-> SdpPres, maxlen |-> 3] >>
+   [name |-> "http_req", toks |-> ReqTokens, pres |-> ReqPres, maxlen |-> 4, tail |-> 1, tailcls |-> ""],
+   [name |-> "http_resp", toks |-> RespTokens, pres |-> RespPres, maxlen |-> 4, tail |-> 1, tailcls |-> ""],
+   [name |-> "http_hdr", toks |-> HdrTokens, pres |-> HdrPres, maxlen |-> 4, tail |-> 1, tailcls |-> ""],
+   [name |-> "http_qry", toks |-> QryTokens, pres |-> NoPres, maxlen |-> 5, tail |-> 1, tailcls |-> ""],
+   [name |-> "http_chk", toks |-> ChkTokens, pres |-> NoPres, maxlen |-> 4, tail |-> 1, tailcls |-> ""],
+   [name |-> "http_url", toks |-> UrlTokens, pres |-> NoPres, maxlen |-> 4, tail |-> 2, tailcls |-> "pct"],
+   [name |-> "wsp", toks |-> WspTokens, pres |-> NoPres, maxlen |-> 4, tail |-> 1, tailcls |-> ""],
+   [name |-> "sdp", toks |-> SdpTokens, pres |-> SdpPres, maxlen |-> 3, tail |-> 2, tailcls |-> "crlf"] >>
 
 FamsThorough == <<
-   [name |-> "http_req", toks |-> ReqTokens, pres |-> ReqPres, maxlen |-> 5],
-   [name |-> "http_resp", toks |-> RespTokens, pres |-> RespPres, maxlen |-> 6],
-   [name |-> "http_hdr", toks |-> HdrTokens, pres |-> HdrPres, maxlen |-> 5],
-   [name |-> "http_qry", toks |-> QryTokens, pres |-> NoPres, maxlen |-> 8],
-   [name |-> "http_chk", toks |-> ChkTokens, pres |-> NoPres, maxlen |-> 5],
-   [name |-> "http_url", toks |-> UrlTokens, pres |-> NoPres, maxlen |-> 6],
-   [name |-> "wsp", toks |-> WspTokens, pres |-> NoPres, maxlen |-> 6],
-   [name |-> "sdp", toks |-> SdpTokens, pres |-> SdpPres, maxlen |-> 5] >>
+   [name |-> "http_req", toks |-> ReqTokens, pres |-> ReqPres, maxlen |-> 5, tail |-> 1, tailcls |-> ""],
+   [name |-> "http_resp", toks |-> RespTokens, pres |-> RespPres, maxlen |-> 6, tail |-> 1, tailcls |-> ""],
+   [name |-> "http_hdr", toks |-> HdrTokens, pres |-> HdrPres, maxlen |-> 5, tail |-> 1, tailcls |-> ""],
+   [name |-> "http_qry", toks |-> QryTokens, pres |-> NoPres, maxlen |-> 8, tail |-> 1, tailcls |-> ""],
+   [name |-> "http_chk", toks |-> ChkTokens, pres |-> NoPres, maxlen |-> 5, tail |-> 1, tailcls |-> ""],
+   [name |-> "http_url", toks |-> UrlTokens, pres |-> NoPres, maxlen |-> 6, tail |-> 2, tailcls |-> "pct"],
+   [name |-> "wsp", toks |-> WspTokens, pres |-> NoPres, maxlen |-> 6, tail |-> 1, tailcls |-> ""],
+   [name |-> "sdp", toks |-> SdpTokens, pres |-> SdpPres, maxlen |-> 5, tail |-> 2, tailcls |-> "crlf"] >>
 
 FamsSim == <<
-   [name |-> "http_req", toks |-> ReqTokens, pres |-> ReqPres, maxlen |-> 10],
-   [name |-> "http_resp", toks |-> RespTokens, pres |-> RespPres, maxlen |-> 10],
-   [name |-> "http_hdr", toks |-> HdrTokens, pres |-> HdrPres, maxlen |-> 12],
-   [name |-> "http_qry", toks |-> QryTokens, pres |-> NoPres, maxlen |-> 14],
-   [name |-> "http_chk", toks |-> ChkTokens, pres |-> NoPres, maxlen |-> 10],
-   [name |-> "http_url", toks |-> UrlTokens, pres |-> NoPres, maxlen |-> 12],
-   [name |-> "wsp", toks |-> WspTokens, pres |-> NoPres, maxlen |-> 12],
-   [name |-> "sdp", toks |-> SdpTokens, pres |-> SdpPres, maxlen |-> 10] >>
+   [name |-> "http_req", toks |-> ReqTokens, pres |-> ReqPres, maxlen |-> 10, tail |-> 1, tailcls |-> ""],
+   [name |-> "http_resp", toks |-> RespTokens, pres |-> RespPres, maxlen |-> 10, tail |-> 1, tailcls |-> ""],
+   [name |-> "http_hdr", toks |-> HdrTokens, pres |-> HdrPres, maxlen |-> 12, tail |-> 1, tailcls |-> ""],
+   [name |-> "http_qry", toks |-> QryTokens, pres |-> NoPres, maxlen |-> 14, tail |-> 1, tailcls |-> ""],
+   [name |-> "http_chk", toks |-> ChkTokens, pres |-> NoPres, maxlen |-> 10, tail |-> 1, tailcls |-> ""],
+   [name |-> "http_url", toks |-> UrlTokens, pres |-> NoPres, maxlen |-> 12, tail |-> 2, tailcls |-> "pct"],
+   [name |-> "wsp", toks |-> WspTokens, pres |-> NoPres, maxlen |-> 12, tail |-> 1, tailcls |-> ""],
+   [name |-> "sdp", toks |-> SdpTokens, pres |-> SdpPres, maxlen |-> 10, tail |-> 2, tailcls |-> "crlf"] >>
 =============================================================================
